@@ -175,6 +175,9 @@ func hashKey(key string) uint64 {
 // a JSON-marshalable description, kept in a small reservoir (at most a few per
 // class).
 func Case(class string, nontrivial bool, key string, sample any) {
+	if fuzzMode {
+		return
+	}
 	mu.Lock()
 	defer mu.Unlock()
 	evaluations++
@@ -218,6 +221,9 @@ func CaseFn(class string, nontrivial bool, key string, mk func() any) {
 
 // WantSample reports whether a written-out sample of this class would be kept.
 func WantSample(class string) bool {
+	if fuzzMode {
+		return false
+	}
 	mu.Lock()
 	defer mu.Unlock()
 	return sampleSeen[class] < 2 && len(samples) < maxSamples
@@ -241,6 +247,9 @@ func Hex(b []byte) string {
 
 // Count adds n to a class counter without counting an evaluation.
 func Count(class string, n int64) {
+	if fuzzMode {
+		return
+	}
 	mu.Lock()
 	classes[class] += n
 	mu.Unlock()
@@ -249,6 +258,9 @@ func Count(class string, n int64) {
 // Excluded counts a generated case that was skipped because it falls into the
 // input class of an OPEN known finding.
 func Excluded(finding string) {
+	if fuzzMode {
+		return
+	}
 	mu.Lock()
 	excluded[finding]++
 	mu.Unlock()
@@ -417,6 +429,10 @@ func ReportKnown(prop, key, what string) {
 // fail file in the replay-out directory.  It detects short runs (rapid stops
 // silently at the test deadline) and records them as inconclusive.
 func RapidCheck(t *testing.T, quickTotal, thoroughTotal int, prop func(*rapid.T)) {
+	if capturing {
+		captured = prop
+		return
+	}
 	t.Helper()
 	n := PerShard(Pick(quickTotal, thoroughTotal))
 	if v := os.Getenv("VERIF_CHECKS_OVERRIDE"); v != "" {
@@ -458,6 +474,58 @@ func RapidCheck(t *testing.T, quickTotal, thoroughTotal int, prop func(*rapid.T)
 	if t.Failed() {
 		fmt.Printf("VERIF-RAPIDFAIL test=%s\n", t.Name())
 	}
+}
+
+// ---------------------------------------------------------------- coverage-guided mode
+
+var (
+	capturing bool
+	captured  func(*rapid.T)
+	fuzzMode  bool
+)
+
+// Fuzzing reports whether the process runs a property under the native fuzzer
+// (no evidence is recorded then: worker processes come and go).
+func Fuzzing() bool { return fuzzMode }
+
+// FuzzVia runs the rapid property of a Test function (the one it hands to
+// RapidCheck) under Go's coverage-guided fuzzer: the property is captured by
+// calling the Test function in capture mode (RapidCheck returns at once and the
+// *testing.T, nil here, is never touched - only Test functions whose set-up
+// before RapidCheck does not use t may be passed), then driven by
+// rapid.MakeFuzz, so the fuzzer mutates rapid's bit stream with coverage
+// feedback.  A failing input is saved by the Go tool under testdata/fuzz/ and is
+// the replay file; violations are reported through Fail as usual.
+func FuzzVia(f *testing.F, test func(*testing.T)) {
+	capturing, captured = true, nil
+	test(nil)
+	capturing = false
+	p := captured
+	if p == nil {
+		f.Fatalf("FuzzVia: the test function did not reach RapidCheck")
+	}
+	fuzzMode = true
+	// seed corpus: rapid reads its choices from the input bytes, so an empty corpus means
+	// "every draw fails" until the fuzzer has grown inputs; start from bit streams long enough
+	// to complete a case (pseudo-random, all-zero = minimal choices, all-ones = maximal choices)
+	for i, n := range []int{512, 2048, 8192, 32768} {
+		b := make([]byte, n)
+		x := uint64(0x9E3779B97F4A7C15) * uint64(i+1)
+		for j := range b {
+			x ^= x << 13
+			x ^= x >> 7
+			x ^= x << 17
+			b[j] = byte(x >> 32)
+		}
+		f.Add(b)
+	}
+	f.Add(make([]byte, 4096))
+	ones := make([]byte, 4096)
+	for i := range ones {
+		ones[i] = 0xFF
+	}
+	f.Add(ones)
+	f.Fuzz(rapid.MakeFuzz(p))
 }
 
 func Pick2(q, th string) string {
